@@ -153,6 +153,29 @@ def run_half(sc):
     return log
 
 
+def run_stream(sc):
+    """the scripted peer writes its handshake octets and a run of valid frames as ONE octet stream, cut at sc["cuts"]"""
+    role, serid = sc["role"], sc["ser"]
+    sessions = []
+    p, t = D.rs_proto(role, sessions, sup=(serid,), req=serid)
+    ser = D.SER_BY_RSID[serid]()
+    msgs = [make_msg(ser, n, i)[0] for i, n in enumerate(sc["lens"])]
+    stream = bytes([0x7F, (sc.get("peer_exp", 15) << 4) | serid, 0, 0])
+    for m in msgs:
+        payload = ser.serialize(m)[0]
+        stream += struct.pack("!L", len(payload)) + payload
+    escs = []
+    for ch in cut(stream, list(sc["cuts"])):
+        escs.append(D.feed_reactor(p, t, ch))
+    got = sessions[0].msgs if sessions else []
+    intact = len(got) == len(msgs) and all(a.marshal() == b.marshal() for a, b in zip(got, msgs))
+    obs = dict(attached=sum(x.opens for x in sessions), delivered=len(got), intact=bool(intact), esc=";".join(x for x in escs if x)[:80], dropped=D.dropped(t))
+    D.tell_lost(p, t)
+    obs["opens"] = sum(x.opens for x in sessions)
+    obs["closes"] = sum(len(x.closes) for x in sessions)
+    return [dict(ev="stream", role=role, count=len(msgs), cuts=list(sc["cuts"]), obs=obs)]
+
+
 def run_pair(sc):
     rng = random.Random(sc.get("seed", 0))
     kind, sername = sc["kind"], sc["ser"]
@@ -297,7 +320,7 @@ def run(inp):
     traces = []
     for sc in inp["scenarios"]:
         try:
-            tr = run_half(sc) if sc["type"] == "half" else run_pair(sc)
+            tr = run_half(sc) if sc["type"] == "half" else (run_stream(sc) if sc["type"] == "stream" else run_pair(sc))
         except Exception as e:  # noqa
             import traceback
             tr = [dict(ev="escape", err=type(e).__name__ + ":" + str(e)[:100], tb=traceback.format_exc()[-500:])]
